@@ -75,6 +75,19 @@ def make_history(base, cfg, r, n_commits=None, kind=None):
     keeper = sqlite3.connect(work, isolation_level=None)   # keeps the WAL alive on close
     keeper.execute("PRAGMA wal_autocheckpoint=0")
     tables = {}
+    fresh_mark = [mx_frame(work)]
+
+    def fresh_snap():
+        """fresh_wal histories: one snapshot per statement that wrote frames, starting from the empty file"""
+        if kind == "fresh_wal":
+            now = mx_frame(work)
+            if now != fresh_mark[0]:
+                h.snapshots.append(snapshot(con, tables))
+                h.events.append("setup")
+                fresh_mark[0] = now
+
+    if kind == "fresh_wal":
+        h.snapshots.append(snapshot(con, tables))       # the empty database file
     ncols = r.randint(2, 4)
     alias = r.random() < 0.4
     cols = [f"c{i}" for i in range(ncols)]
@@ -85,8 +98,10 @@ def make_history(base, cfg, r, n_commits=None, kind=None):
         con.execute("INSERT INTO victim VALUES (1, 'v')")
     con.execute(f"CREATE TABLE t0 ({', '.join(decl)})")
     tables["t0"] = (cols, alias)
+    fresh_snap()
     if r.random() < 0.5 and kind != "rootmove":      # (t0 must own the largest root page to be the one that moves)
         con.execute("CREATE INDEX i0 ON t0 (c1)")
+        fresh_snap()
     base_rows = r.choice([0, 5, 40, 120])
     if kind == "rootmove":
         base_rows = r.choice([1, 2, 3, 40])      # a single-page table: after the move none of its old pages is rewritten
@@ -105,9 +120,14 @@ def make_history(base, cfg, r, n_commits=None, kind=None):
             vals = [None if alias else 1] + [bytes(r.randint(0, 255) for _ in range(3 * ps + 17)) for _ in cols[1:]]
             con.execute(f"INSERT INTO t0 ({','.join(cols)}) VALUES ({','.join('?' * ncols)})", vals)
     con.execute("COMMIT")
-    # everything so far goes into the database file
-    con.execute("PRAGMA wal_checkpoint(TRUNCATE)")
-    h.snapshots.append(snapshot(con, tables))
+    if kind == "fresh_wal":
+        # nothing is checkpointed: the database file stays the empty one-page file and the schema, the schema
+        # format and the text encoding are first established inside the WAL
+        fresh_snap()
+    else:
+        # everything so far goes into the database file
+        con.execute("PRAGMA wal_checkpoint(TRUNCATE)")
+        h.snapshots.append(snapshot(con, tables))
     n_commits = n_commits if n_commits is not None else r.randint(1, 6)
     wal_size = mx_frame(work)
     stale_generation = False
